@@ -441,7 +441,7 @@ class Unit:
             replaced = [n for n in replaced if n in spec.replace]
         parts = []
         parts.append('#include "verif_prelude.h"\n')
-        parts.append("int __verif_exc;\nunsigned long verif_atomic_ops;\n")
+        parts.append("int __verif_exc;\nunsigned long verif_atomic_ops;\nunsigned long verif_gi, verif_gj, verif_hi, verif_hj;\n")
         parts.append(self.nondet_decls())
         # records/globals are global to the translator: emit all that exist (cheap)
         body_parts = []
